@@ -877,6 +877,15 @@ func Replace(env envs.Environment, args ...types.XValue) types.XValue {
 		}
 	}
 
+	// each replacement made changes the length of the text by the difference between replacement and needle
+	replacements := strings.Count(text.Native(), needle.Native())
+	if count >= 0 && count < replacements {
+		replacements = count
+	}
+	if int64(len(text.Native()))+int64(replacements)*int64(len(replacement.Native())-len(needle.Native())) > types.MaxTextLength {
+		return types.NewXErrorf("must produce text of at most %d bytes", types.MaxTextLength)
+	}
+
 	return types.NewXText(strings.Replace(text.Native(), needle.Native(), replacement.Native(), count))
 }
 
@@ -1601,6 +1610,10 @@ func Join(env envs.Environment, arg1 types.XValue, arg2 types.XValue) types.XVal
 		}
 
 		output.WriteString(itemAsStr.Native())
+
+		if output.Len() > types.MaxTextLength {
+			return types.NewXErrorf("must produce text of at most %d bytes", types.MaxTextLength)
+		}
 	}
 
 	return types.NewXText(output.String())
